@@ -693,7 +693,11 @@ func (m *Manager) revalidatePool() {
 		delete(m.txpool.indices, txid)
 	}
 	m.txpool.ms = consensus.NewMidState(m.tipState)
+	// re-offer the transactions of the most recently reverted tip once; a
+	// reverted transaction that is not acceptable now must not come back later
+	// and displace transactions that were accepted in the meantime
 	m.txpool.txns = append(m.txpool.txns, m.txpool.lastReverted...)
+	m.txpool.lastReverted = m.txpool.lastReverted[:0]
 	m.txpool.weight = 0
 	filtered := m.txpool.txns[:0]
 	for _, txn := range m.txpool.txns {
@@ -715,6 +719,7 @@ func (m *Manager) revalidatePool() {
 	m.txpool.txns = filtered
 
 	m.txpool.v2txns = append(m.txpool.v2txns, m.txpool.lastRevertedV2...)
+	m.txpool.lastRevertedV2 = m.txpool.lastRevertedV2[:0]
 	v2filtered := m.txpool.v2txns[:0]
 	for _, txn := range m.txpool.v2txns {
 		id := txn.ID()
